@@ -630,8 +630,9 @@ def random_history(rng, runner, length, failing=0.3, skip=()):
         except Exception:
             continue
         cell = "%s:%s" % (op[0], "+".join(sorted(set(probe))) or "-")
-        if op[0] in ("merge", "set_link") and set(probe) & {"self", "related", "ancestor", "descendant",
-                                                          "other-document-or-detached"}:
+        if op[0] in ("merge", "set_link", "finalize") and set(probe) & {"self", "related", "ancestor", "descendant",
+                                                                      "other-document-or-detached",
+                                                                      "link-into-own-branch"}:
             # outside every quantifier (merging a Section into itself / its own subtree, links to the
             # own subtree); exercised once each by the directed deck only
             runner.rec.count("skipped_out_of_scope_cells", cell)
